@@ -4,6 +4,7 @@ import GinjaxVerif.Lemmas.C10Signature
 import GinjaxVerif.Lemmas.C10Flip
 import GinjaxVerif.Lemmas.C10Equator
 import GinjaxVerif.Lemmas.C10Wrapper
+import GinjaxVerif.Lemmas.C10Concrete
 import Mathlib.Algebra.Group.Action.Basic
 import Mathlib.Algebra.Module.Basic
 
@@ -504,5 +505,26 @@ example :
     (keysOf x).Nodup ∧ (∀ kb ∈ x, kb.1.2 < 2) ∧
     ((modelWrapperCall 2 (sigT x) id x).map fun out => sigT out) = some (sigT x) := by
   decide
+
+/-! ## GroupAverage with the concrete image action of C02
+
+`groupAverage_equivariant_concrete` (in `Lemmas/C10Concrete.lean`) discharges every hypothesis of
+`avg_equivariant_of_laws` with the action laws of the model `tge` of `times_group_element`
+(`actV_eq_tge`: on the box the action used there IS `tge`), for operators preserving the extents:
+all of `B_d` on square / cubic images, `C2^d` on any extents.  The general non-square case (extents
+permuted by the operators) is covered by the correspondence run, not by a theorem: a single
+additive group of images cannot hold images of different extents. -/
+
+theorem groupAverage_equivariant_images {R : Type} [CommRing R] {d : Nat} {ι κ : Type}
+    (N : Fin d → Nat) (parX : ι → Nat) (parY : κ → Nat) (ops : List (SP d))
+    (hops : ∀ g ∈ ops, Preserves N g) (h : SP d) (hh : Preserves N h)
+    (hclosed : (ops.map (· * h)).Perm ops) (f : (ι → V R d) → (κ → V R d)) (r : R)
+    (x : ι → V R d) :
+    (fun i y n => r * avgSum SP.inv (actMI N parX) (actMI N parY) ops f (actMI N parX h x) i y n)
+      = actMI N parY h (fun i y n => r * avgSum SP.inv (actMI N parX) (actMI N parY) ops f x i y n) :=
+  groupAverage_equivariant_concrete N parX parY ops hops h hh hclosed f r x
+
+/-- square images: every signed permutation preserves the extents -/
+theorem preserves_of_square {d : Nat} (n : Nat) (g : SP d) : Preserves (fun _ => n) g := fun _ => rfl
 
 end GinjaxVerif.C10
